@@ -476,6 +476,30 @@ pub fn run(ctx: &Ctx) -> PropertyReport {
         r.floor("string_needs_cdata", cases / 50);
         rep.push(r);
     }
+    if sub.runs("writer-large") {
+        // long values, big tables, long names and columns of smallest values, judged by the same independent parser
+        use super::c01::LargeCase;
+        let mut cases: Vec<LargeCase> = Vec::new();
+        for kind in ["String", "BinaryString", "SharedString", "NumberSequence", "ColorSequence"] {
+            for n in [65_535usize, 65_536, 65_537, 200_001] {
+                cases.push(LargeCase::LongValue { kind: kind.to_string(), n });
+            }
+        }
+        cases.push(LargeCase::LongValue { kind: "SharedString".into(), n: 1_100_000 });
+        cases.push(LargeCase::LongValue { kind: "BinaryString".into(), n: 1_100_000 });
+        cases.extend(super::c01::more_large_cases(false).into_iter().filter(|c| match c {
+            LargeCase::MinimalColumn { kind, n, .. } => !kind.ends_with("Sequence") && *n <= 257,
+            LargeCase::ManyShared { n } | LargeCase::ManyProps { n } => *n <= 257,
+            LargeCase::ManyEntries { n, .. } => *n <= 257,
+            _ => true,
+        }));
+        let mut r = ctx.run_list("writer-large", cases, true, |c: &LargeCase, ctx: &mut CaseCtx| {
+            ctx.nontrivial();
+            writer_body(&WriterCase { forest: super::c01::large_forest(c), write_unknown: true }, ctx)
+        });
+        r.notes.push("the writer's documents for values longer than 64 KiB / 1 MiB, tables of 257 entries, names of up to 70 000 characters and columns of empty values".into());
+        rep.push(r);
+    }
     if sub.runs("reader") {
         let cases = ctx.cfg.cases(40_000, 4_000_000);
         let strat = || {
